@@ -377,9 +377,9 @@ impl RequestHandlerPipeline {
                     let to_be_removed: Vec<_> = state_accumulator
                         .iter()
                         .filter(|ty| match ty {
-                            Type::Path(_) => *ty == &output,
                             Type::Reference(ref_) => ref_.inner.as_ref() == &output,
-                            _ => false,
+                            // The output can be any kind of type, e.g. a tuple or an array.
+                            _ => *ty == &output,
                         })
                         .cloned()
                         .collect();
